@@ -533,7 +533,7 @@ impl Check for C20 {
     }
 
     fn rule(&self) -> String {
-        "enumeration of (configuration, seed present?, crash point) where crash points are: none, the prover's error return after the witness was absorbed, and a panic of the external RNG at each of its 3+rounds call sites; each lattice point is executed several times with seeded values, drop orders, clone choices and recovery modes; one evaluation = one heap block freed while armed and scanned for the registered secret images (+1 per inline-seed check); non-trivial = a crash point or error path actually fired; distinct = distinct event-log hashes. Executed twice: library at opt-level 0 (heap behaviour as the source states it) and at release.".into()
+        "enumeration of (configuration, seed present?, crash point) where crash points are: none, the prover's error return after the witness was absorbed, and a panic of the external RNG at each of its 3+rounds call sites; each lattice point is executed several times with seeded values, drop orders, clone choices, clone_from targets, openings moved out of a witness clone before its drop, and recovery modes; one evaluation = one heap block freed while armed and scanned for the registered secret images (+1 per inline-seed check); non-trivial = a crash point or error path actually fired; distinct = distinct event-log hashes. Executed twice: library at opt-level 0 (heap behaviour as the source states it) and at release.".into()
     }
 
     fn assumptions(&self) -> Vec<String> {
